@@ -501,7 +501,10 @@ func newMethod(pkg *ssa.Package, recvType types.Type, name string) *ssa.Function
 }
 
 func initReflect(prog *ssa.Program) {
-	i := struct{ prog *ssa.Program; reflectPackage *ssa.Package }{prog: prog}
+	i := struct {
+		prog           *ssa.Program
+		reflectPackage *ssa.Package
+	}{prog: prog}
 	i.reflectPackage = &ssa.Package{
 		Prog:    i.prog,
 		Pkg:     reflectTypesPackage,
